@@ -88,6 +88,9 @@ func (d *Directory) CreateDirectory(name string) error {
 	}
 
 	// Create the directory.
+	if err := verifFault("mkdir", name); err != nil {
+		return err
+	}
 	return mkdiratRetryingOnEINTR(d.descriptor, name, 0700)
 }
 
@@ -128,6 +131,9 @@ func (d *Directory) CreateTemporaryFile(pattern string) (string, io.WriteCloser,
 	}
 
 	// Iterate until we can find a free file name.
+	if err := verifFault("mktemp", pattern); err != nil {
+		return "", nil, err
+	}
 	try := 0
 	for {
 		// Compute the next potential name using a pseudorandom component.
@@ -168,6 +174,9 @@ func (d *Directory) CreateSymbolicLink(name, target string) error {
 	}
 
 	// Create the symbolic link.
+	if err := verifFault("symlink", name); err != nil {
+		return err
+	}
 	return symlinkatRetryingOnEINTR(target, d.descriptor, name)
 }
 
@@ -186,6 +195,9 @@ func (d *Directory) SetPermissions(name string, ownership *OwnershipSpecificatio
 	}
 
 	// Set ownership information, if specified.
+	if err := verifFault("chmod", name); err != nil {
+		return err
+	}
 	if ownership != nil && (ownership.ownerID != -1 || ownership.groupID != -1) {
 		if err := fchownatRetryingOnEINTR(d.descriptor, name, ownership.ownerID, ownership.groupID, unix.AT_SYMLINK_NOFOLLOW); err != nil {
 			return fmt.Errorf("unable to set ownership information: %w", err)
@@ -283,6 +295,9 @@ func (d *Directory) open(name string, wantDirectory bool) (int, *Metadata, error
 // underlying file handle pointing to the same directory) by passing "." to this
 // function.
 func (d *Directory) OpenDirectory(name string) (*Directory, error) {
+	if err := verifFault("opendir", name); err != nil {
+		return nil, err
+	}
 	// Call the underlying open method.
 	descriptor, _, err := d.open(name, true)
 	if err != nil {
@@ -299,6 +314,9 @@ func (d *Directory) OpenDirectory(name string) (*Directory, error) {
 // ReadContentNames queries the directory contents and returns their base names.
 // It does not return "." or ".." entries.
 func (d *Directory) ReadContentNames() ([]string, error) {
+	if err := verifFault("readdir", ""); err != nil {
+		return nil, err
+	}
 	// If we've already performed a read on the directory's contents, then we
 	// need to rewind the directory before performing another read.
 	if d.exhausted {
@@ -344,6 +362,10 @@ func (d *Directory) ReadContentNames() ([]string, error) {
 func (d *Directory) ReadContentMetadata(name string) (*Metadata, error) {
 	// Verify that the name is valid.
 	if err := ensureValidName(name); err != nil {
+		return nil, err
+	}
+
+	if err := verifFault("lstat", name); err != nil {
 		return nil, err
 	}
 
@@ -410,6 +432,9 @@ func (d *Directory) ReadContents() ([]*Metadata, error) {
 
 // OpenFile opens the file within the directory specified by name.
 func (d *Directory) OpenFile(name string) (io.ReadSeekCloser, *Metadata, error) {
+	if err := verifFault("openfile", name); err != nil {
+		return nil, nil, err
+	}
 	// Perform the open operation.
 	descriptor, metadata, err := d.open(name, false)
 	if err != nil {
@@ -432,6 +457,10 @@ const readlinkInitialBufferSize = 128
 func (d *Directory) ReadSymbolicLink(name string) (string, error) {
 	// Verify that the name is valid.
 	if err := ensureValidName(name); err != nil {
+		return "", err
+	}
+
+	if err := verifFault("readlink", name); err != nil {
 		return "", err
 	}
 
@@ -479,6 +508,9 @@ func (d *Directory) RemoveDirectory(name string) error {
 	}
 
 	// Remove the directory.
+	if err := verifFault("rmdir", name); err != nil {
+		return err
+	}
 	return unlinkatRetryingOnEINTR(d.descriptor, name, unix.AT_REMOVEDIR)
 }
 
@@ -490,6 +522,9 @@ func (d *Directory) RemoveFile(name string) error {
 	}
 
 	// Remove the file.
+	if err := verifFault("unlink", name); err != nil {
+		return err
+	}
 	return unlinkatRetryingOnEINTR(d.descriptor, name, 0)
 }
 
@@ -531,6 +566,10 @@ func Rename(
 			return fmt.Errorf("target name invalid: %w", err)
 		}
 		targetDescriptor = targetDirectory.descriptor
+	}
+
+	if err := verifFault("rename", targetNameOrPath); err != nil {
+		return err
 	}
 
 	// If we're allowing the target to be replaced, then just attempt a standard
